@@ -4,6 +4,7 @@ pub mod c11_framing;
 pub mod c15_handshake;
 pub mod c30_browse;
 pub mod c32_attributes;
+pub mod c33_swarm;
 pub mod nm_family;
 pub mod sess_family;
 pub mod subs_family;
@@ -21,5 +22,6 @@ pub fn all() -> Vec<Box<dyn Scenario>> {
     }
     v.push(Box::new(c30_browse::C30));
     v.push(Box::new(c32_attributes::C32));
+    v.push(Box::new(c33_swarm::C33));
     v
 }
